@@ -61,9 +61,28 @@ def load_known_findings():
 
 def _native_run(lem, kwargs):
     """Run the lemma natively. -> ('return', None) | ('assert', msg) | ('raise', 'ExcName: msg')"""
+    kwargs = dict(kwargs)
+    api._NATIVE_GHOST.clear()
+    api._install_native_log_probe()
+    api._NATIVE_LOG["exception"] = 0
+    api._NATIVE_ORACLE[:] = list(kwargs.pop("__oracle__", []))
+    saved = []
+    for owner, attr, repl in lem.cfg.get("stubs", []):
+        saved.append((owner, attr, owner.__dict__[attr]))
+        setattr(owner, attr, repl)
+    try:
+        return _native_run_inner(lem, kwargs)
+    finally:
+        for owner, attr, orig in saved:
+            setattr(owner, attr, orig)
+
+
+def _native_run_inner(lem, kwargs):
     try:
         lem.fn(**kwargs)
         return ("return", None)
+    except api._AssumptionFailed:
+        return ("return", "assumption not met")
     except AssertionError as e:
         tb = traceback.extract_tb(e.__traceback__)
         own = [fr for fr in tb if fr.filename == inspect.getsourcefile(lem.fn)]
@@ -122,6 +141,12 @@ def run_instance(job):
 
         def body(path):
             I = Interp(path, sources, registry, {k: v for k, v in lem.cfg.items() if k != 'dynamic_params'})
+            if lem.cfg.get("stubs"):
+                sm = {}
+                for owner, attr, repl in lem.cfg["stubs"]:
+                    orig = owner.__dict__[attr]
+                    sm[getattr(orig, "__func__", orig)] = getattr(repl, "__func__", repl)
+                I.cfg["stubs_map"] = sm
             I.float_mode = ex.float_mode
             args = {}
             concs = {}
@@ -148,7 +173,10 @@ def run_instance(job):
                 def ev(e):
                     return m.eval(e, model_completion=True)
 
-                return {k: c(ev) for k, c in concs.items()}
+                out = {k: c(ev) for k, c in concs.items()}
+                if path.ghost.get("__oracle__"):
+                    out["__oracle__"] = list(path.ghost["__oracle__"])
+                return out
 
             def record(kind, site, status, dt, detail=None, model_args=None, native=None):
                 vcs.append({"kind": kind, "site": site, "status": status, "solver_s": round(dt, 4), "detail": detail, "args": model_args, "native": native, "decisions": "".join("T" if d else "F" for d in path.decisions)})
